@@ -4,7 +4,7 @@
    itself makes gen_reexec fail; checks/c18.py then asks first_bad_streams for the witness. *)
 From Coq Require Import List String NArith ZArith Bool Arith Lia.
 From Qryn Require Import model.Migrate model.MigrateRepair proofs.MigrateProofs proofs.MigrateClusterProofs proofs.MigrateConcProofs
-  proofs.MigrateClassProofs proofs.MigrateSoloProofs proofs.MigrateRepairProofs gen.GenScripts.
+  proofs.MigrateClassProofs proofs.MigrateSoloProofs proofs.MigrateRepairProofs proofs.MigrateBootProofs gen.GenScripts.
 Import ListNotations.
 Open Scope nat_scope.
 
@@ -108,6 +108,43 @@ Proof.
                 (cl_scripts gen_scripts gen_oncluster c) c (streams_of c) os (r_db r)) as (_ & _ & Hns & _).
     + intros k Hk. rewrite (Hv k Hk). lia.
     + exact Hns.
+Qed.
+
+(* ---- through the bootstrap (ctrl.Init = InitDB, then Update): whatever happened in earlier starts -- failures in
+   the bootstrap calls, panics, failures anywhere in Update -- the next undisturbed start gets through the bootstrap,
+   returns nil, ends in the expected schema with every version recorded, and a further start runs no script *)
+Definition cl_init_multi (bc : bcfg) :=
+  init_multi (ccat cat) (cstmt stmt) (cl_exec cat stmt (exec_ch (cloud (b_cfg bc)))) (cl_pexec cat stmt (exec_ch (cloud (b_cfg bc))))
+             (cl_scripts gen_scripts gen_oncluster (b_cfg bc)) bc.
+Lemma gen_init_converges : forall (bc : bcfg) (n : nat) (runs : list (list outcome)), b_ttl0 bc = false ->
+  let d := fst (cl_init_multi bc runs {| bd_exists := false; bd_db := db0 (ccat cat) (hosts0 (S n)) |}) in
+  let r := ch_init gen_scripts gen_oncluster bc [] d in
+  br_ok r = true /\
+  d_cat (bd_db (br_db r)) = d_cat (expected_final gen_scripts gen_oncluster (b_cfg bc) (S n)) /\
+  (forall k, In k (streams_of (b_cfg bc)) -> d_vers (bd_db (br_db r)) k = List.length (gen_scripts k)) /\
+  (forall os, filter is_script_event (br_log (ch_init gen_scripts gen_oncluster bc os (br_db r))) = []).
+Proof.
+  intros bc n runs Ht d r.
+  destruct (init_multi_is_multi_run (ccat cat) (cstmt stmt) (cl_exec cat stmt (exec_ch (cloud (b_cfg bc)))) (cl_pexec cat stmt (exec_ch (cloud (b_cfg bc))))
+              (cl_scripts gen_scripts gen_oncluster (b_cfg bc)) bc runs {| bd_exists := false; bd_db := db0 (ccat cat) (hosts0 (S n)) |}) as [Hd _].
+  cbn [bd_exists bd_db] in Hd. fold (cl_init_multi bc runs {| bd_exists := false; bd_db := db0 (ccat cat) (hosts0 (S n)) |}) in Hd. fold d in Hd.
+  destruct (init_clean (ccat cat) (cstmt stmt) (cl_exec cat stmt (exec_ch (cloud (b_cfg bc)))) (cl_pexec cat stmt (exec_ch (cloud (b_cfg bc))))
+              (cl_scripts gen_scripts gen_oncluster (b_cfg bc)) bc d Ht) as (Hok & Hdb & _ & _).
+  destruct (gen_converges (b_cfg bc) n (init_update_runs bc runs false)) as (Cok & Ccat & Cv & Cno).
+  unfold cl_multi in Cok, Ccat, Cv, Cno. rewrite <- Hd in Cok, Ccat, Cv, Cno.
+  unfold ch_update in Cok, Ccat, Cv, Cno.
+  change (ch_init gen_scripts gen_oncluster bc [] d) with r in Hok, Hdb.
+  rewrite <- Hok in Cok. rewrite <- Hdb in Ccat, Cv, Cno.
+  split; [exact Cok|]. split; [exact Ccat|]. split; [exact Cv|].
+  intros os.
+  destruct (init_log_is_update (ccat cat) (cstmt stmt) (cl_exec cat stmt (exec_ch (cloud (b_cfg bc)))) (cl_pexec cat stmt (exec_ch (cloud (b_cfg bc))))
+              (cl_scripts gen_scripts gen_oncluster (b_cfg bc)) bc os (br_db r)) as [[Hl _]|(os' & Hl & _)].
+  - change (ch_init gen_scripts gen_oncluster bc os (br_db r)) with
+      (init (ccat cat) (cstmt stmt) (cl_exec cat stmt (exec_ch (cloud (b_cfg bc)))) (cl_pexec cat stmt (exec_ch (cloud (b_cfg bc))))
+            (cl_scripts gen_scripts gen_oncluster (b_cfg bc)) bc os (br_db r)). now rewrite Hl.
+  - change (ch_init gen_scripts gen_oncluster bc os (br_db r)) with
+      (init (ccat cat) (cstmt stmt) (cl_exec cat stmt (exec_ch (cloud (b_cfg bc)))) (cl_pexec cat stmt (exec_ch (cloud (b_cfg bc))))
+            (cl_scripts gen_scripts gen_oncluster (b_cfg bc)) bc os (br_db r)). rewrite Hl. apply Cno.
 Qed.
 
 (* what the hosts end with: the connected host exactly where the one-server model ends (it runs every
